@@ -86,6 +86,9 @@ fn main() {
     if errs.len() != 2 { return Err(format!("nbf=2001 exp=999 with AllErrors: expected 2 errors, got {errs:?}")); }
     let errs = run(&jwt("", &mk(2001, Some(999))), &[doc()], &base(), FailFast::FirstError).err().unwrap_or_default();
     if errs.len() != 1 { return Err(format!("nbf=2001 exp=999 with FirstError: expected 1 error, got {errs:?}")); }
+    // expiry is judged against `earliest_expiry_date`, else against NOW - never against the issuance bound
+    let only_issuance = JwtCredentialValidationOptions::default().latest_issuance_date(Timestamp::from_unix(2000).unwrap());
+    if ok(&jwt("", &mk(1500, Some(5000))), &only_issuance) { return Err("credential expired in 1970 accepted when only latest_issuance_date is configured".into()); }
     // a signed vc.expirationDate without exp is inconsistent, not "never expires"
     let c = format!(r#"{{ "iss":"{DID}", "nbf": 1500, "sub":"did:example:subject", "vc": {{ "@context":"https://www.w3.org/2018/credentials/v1","type":["VerifiableCredential"],"credentialSubject":{{"name":"x"}}, "expirationDate":"1970-01-01T00:00:10Z" }} }}"#);
     if ok(&jwt("", &c), &base()) { return Err("credential with vc.expirationDate=10s and no exp accepted with earliest expiry 1000".into()); }
